@@ -121,7 +121,7 @@ func genConcProg(maxG int, modes []int, merge, backup bool) *rapid.Generator[Cas
 		if merge {
 			p.Gs = append(p.Gs, ConcG{DB: 0, Kind: "merge", N: rapid.IntRange(1, 4).Draw(t, "nmerge")})
 		}
-		if backup && rapid.IntRange(0, 7).Draw(t, "slowcopy") == 3 {
+		if backup && (rapid.IntRange(0, 7).Draw(t, "slowcopy") == 3 || os.Getenv("VERIF_FORCE_SLOW") != "") && (c.Cfg.Mode != 2 || os.Getenv("VERIF_FORCE_SLOW") == "sparse") {
 			p.Slow = rapid.IntRange(2, 5).Draw(t, "slowsegs")
 			c.Cfg.Seg = 4 << 20
 		}
